@@ -517,6 +517,31 @@ def main():
                                   "differs from the isolated matrix by %.3e (sequence so far %s)" % (cid, o, d_, seq), cid)
                     break
             ctx.case(cid, {"config": name, "sequence": seq})
+    # an operator with explicit low-order parameters takes its strong form FIRST on a pair of spaces (the mass matrix of the
+    # spaces is memoised on first use); a default operator on the same spaces afterwards must be what it is in isolation
+    for cfg in [OPS[1]] + ([OPS[2]] if not ctx.quick else []):
+        cid = "scripted:strong_form_after_low_order_operator:%s" % cfg[0]
+        if not ctx.want(cid):
+            continue
+        with ctx.guard(cid, "history:scripted"):
+            name, fam, op, tk, sk, k, assembler = cfg
+            g_ = M.to_grid(ms["octa_r1"])
+            trial, test = api.function_space(g_, *KA[tk]), api.function_space(g_, *KA[sk])
+            n = trial.global_dof_count
+            X = ctx.rng("X", n).normal(size=(n, 2))
+            Plow = api.DefaultParameters()
+            Plow.quadrature.regular, Plow.quadrature.singular = 1, 4
+            first_op = O.boundary(api, fam, op, trial, test, test, k, parameters=Plow, assembler=assembler)
+            _ = first_op.strong_form() @ X      # not compared: only its side effects matter here
+            later = O.boundary(api, fam, op, trial, test, test, k, assembler=assembler)
+            got = np.array(later.strong_form() @ X)
+            iso = isolated(api, M, O, ms["octa_r1"], cfg, get_globals(api), X, "strong")
+            d_ = O.rel(got, iso)
+            n_obs += 1
+            ctx.case(cid, {"config": name, "rel_dev_of_the_later_default_operator": d_})
+            if not (d_ <= 1e-11):
+                ctx.violation("history_dependence:strong_form_after_low_order_operator:" + assembler.split("/")[0],
+                              "%s: strong form of a default operator differs from its isolated value by %.3e after an operator with explicit regular order 1 took its strong form on the same spaces" % (cid, d_), cid)
     ctx.lap("scripted_histories")
 
     # ------------------------------------------------------------------ constructor sweep: explicit parameters reach every assembler object
